@@ -454,3 +454,22 @@ func StrList(name string, xs []string, comment string) string {
 func FlagList(name string, xs []string, comment string) string {
 	return fmt.Sprintf("Definition %s : list flag := (* %s *)\n  %s.\n", name, comment, goast.CoqList(xs))
 }
+
+// AssignSrc returns the source text of the right-hand side of the first assignment to variable `name` in fd.
+func AssignSrc(f *goast.File, fd *ast.FuncDecl, name string) (string, error) {
+	var out string
+	ast.Inspect(fd.Body, func(n ast.Node) bool {
+		if out != "" {
+			return false
+		}
+		as, ok := n.(*ast.AssignStmt)
+		if ok && len(as.Lhs) == 1 && len(as.Rhs) == 1 && selName(as.Lhs[0]) == name {
+			out = f.Src(as.Rhs[0])
+		}
+		return true
+	})
+	if out == "" {
+		return "", fmt.Errorf("%s: %s: assignment to %s not found", f.Path, fd.Name.Name, name)
+	}
+	return out, nil
+}
